@@ -138,6 +138,7 @@ class Sx:
         self.stack = []
         self.unknown = []                   # constructs the walk could not model (informational)
         self.gens = {}
+        self._cc = {}
         self.limports = {}
         self.id_ranges = id_ranges(repo)
         self.dict_fields = set()            # attributes of self that hold dictionaries: iterating them iterates their keys
@@ -621,8 +622,33 @@ class Sx:
             r = self.repo.resolve(mod.name, name)
             if r and r[0] == "var" and r[1] in self.repo.modules:
                 val = _module_const(self.repo.modules[r[1]], r[2])
+                if val is None:
+                    val = self._module_dict(self.repo.modules[r[1]], r[2])
         _GC[key] = val
         return val
+
+    def _module_dict(self, mod, name):
+        """module-level dispatch table `NAME = {literal: CONSTANT_NAME | literal, ..}` bound once -> Dict display of the resolved constants"""
+        found = [st for st in mod.tree.body if isinstance(st, (ast.Assign, ast.AnnAssign)) and st.value is not None
+                 and any(isinstance(t, ast.Name) and t.id == name for t in au.assign_targets(st))]
+        if len(found) != 1 or not isinstance(found[0].value, ast.Dict):
+            return None
+        d = found[0].value
+        keys, vals = [], []
+        for k, v in zip(d.keys, d.values):
+            if k is None or au.literal(k) is None:
+                return None
+            if isinstance(v, ast.Name):
+                v = _module_const(mod, v.id)
+            elif au.literal(v) is not None:
+                v = _strip(v)
+            else:
+                v = None
+            if v is None:
+                return None
+            keys.append(_strip(k))
+            vals.append(v)
+        return ast.Dict(keys=keys, values=vals)
 
     def ev_NamedExpr(self, e, st):
         v = self.ev(e.value, st)
@@ -643,9 +669,31 @@ class Sx:
         s = self.ev(e.slice, st)
         return project_term(v, s)
 
+    def _class_const(self, attr):
+        """literal bound to `attr` in a class body of the MRO (never rebound on the instance): `self.<attr>` / `Class.<attr>` reads it"""
+        if attr in self._cc:
+            return self._cc[attr]
+        val = None
+        for m, c in self.mro:
+            fake = type("M", (), {"tree": type("T", (), {"body": c.body})()})()
+            val = _module_const(fake, attr)
+            if val is not None or any(attr in au.assigned_names(t) for st_ in c.body for t in au.assign_targets(st_)):
+                break
+        if val is not None:
+            for m, c in self.mro:
+                for n in ast.walk(c):
+                    if isinstance(n, ast.Attribute) and isinstance(n.ctx, ast.Store) and n.attr == attr:
+                        val = None
+        self._cc[attr] = val
+        return val
+
     def ev_Attribute(self, e, st):
         v = self.ev(e.value, st)
         out = ast.Attribute(value=v, attr=e.attr, ctx=ast.Load())
+        if self.cls is not None and isinstance(v, ast.Name) and (v.id == "self" or v.id in {c.name for _, c in self.mro}):
+            cst = self._class_const(e.attr)
+            if cst is not None:
+                return cst
         # property reads that the policy follows
         if e.attr in self.policy.props:
             tgt = self._resolve_method(v, e.attr)
@@ -694,9 +742,18 @@ class Sx:
             gens.append((frames, [t for t, _ in cs] + ifs))
         return inner, gens
 
-    def _ev_comp(self, e, st):
+    def _ev_comp(self, e, st, it_override=None):
         if len(e.generators) == 1 and not isinstance(e, ast.DictComp):
-            it = self.ev(e.generators[0].iter, st)
+            it = self.ev(e.generators[0].iter, st) if it_override is None else it_override
+            if isinstance(it, ast.IfExp) and it_override is None and len([1 for _ in leaves(it)]) <= 4:
+                # one comprehension per alternative of the iterable: [f(x) for x in (A if c else B)]
+                def dist(t):
+                    if isinstance(t, ast.IfExp):
+                        return ast.IfExp(test=t.test, body=dist(t.body), orelse=dist(t.orelse))
+                    if self._static_items(t) is None:
+                        return ast.Call(func=N("$comp_over"), args=[t], keywords=[])
+                    return self._ev_comp(e, st, it_override=t)
+                return dist(it)
             items = self._static_items(it)
             if items is not None:
                 elts = []
@@ -752,6 +809,17 @@ class Sx:
                     return frames, ast.Tuple(elts=[N(frames[0].var), elem], ctx=ast.Load()), []
                 k = self.fresh("$k")
                 return [Frame("seq", k, it, node)], ast.Tuple(elts=[N(k), project_term(it.args[0], N(k))], ctx=ast.Load()), []
+            if isinstance(it.func, ast.Name) and t == "zip" and len(it.args) >= 2 and not it.keywords \
+                    and all(rotation_of(a, it.args[0]) is not None for a in it.args[1:]):
+                # zip(X, X[1:] + X[:1]): consecutive elements of X, cyclically - the index loop over X in disguise
+                k = self.fresh("$k")
+                X = it.args[0]
+                ln = ast.Call(func=N("len"), args=[X], keywords=[])
+                elems = [project_term(X, N(k))]
+                for a in it.args[1:]:
+                    off = rotation_of(a, X)
+                    elems.append(project_term(X, ast.BinOp(left=ast.BinOp(left=N(k), op=ast.Add(), right=C(off)), op=ast.Mod(), right=ln)))
+                return [Frame("seq", k, X, node)], ast.Tuple(elts=elems, ctx=ast.Load()), []
             if isinstance(it.func, ast.Name) and t == "zip" and it.args and not it.keywords:
                 k = self.fresh("$k")
                 fr = Frame("seq", k, it, node, extra=list(it.args))
@@ -772,6 +840,12 @@ class Sx:
         if isinstance(it, ast.Attribute) and it.attr in self.id_ranges:
             k = self.fresh("$k")
             return [Frame("seq", k, ast.Attribute(value=it.value, attr=self.id_ranges[it.attr], ctx=ast.Load()), node)], N(k), []
+        if is_special(it, "$obj") and it.id in self.objs:
+            init0 = self.objs[it.id].init
+            if isinstance(init0, (ast.Dict, ast.DictComp)) or (isinstance(init0, ast.Call) and isinstance(init0.func, ast.Name)
+                                                             and init0.func.id in ("dict", "defaultdict", "OrderedDict")):
+                k = self.fresh("$k")          # iterating a local dictionary iterates its keys
+                return [Frame("keys", k, it, node)], N(k), []
         if is_special(it, "$obj") and it.id in self.objs and not self.mutated(it.id):
             init = self.objs[it.id].init
             if isinstance(init, (ast.ListComp, ast.GeneratorExp, ast.List, ast.Tuple)) or \
@@ -813,6 +887,10 @@ class Sx:
                 args.append(self.ev(a, st))
         kws = [self._kw(k, st) for k in e.keywords]
         call = ast.Call(func=func, args=args, keywords=kws)
+        if isinstance(func, ast.Attribute) and func.attr == "get" and isinstance(func.value, ast.Dict) and func.value.keys and 1 <= len(args) <= 2 and not kws:
+            r = dict_lookup(func.value, args[0], args[1] if len(args) == 2 else C(None))
+            if r is not None:
+                return r
         if isinstance(func, ast.Name) and func.id == "map" and len(args) == 2 and not kws:
             g = self._map_as_comp(args[0], args[1], st, e)
             if g is not None:
@@ -1060,8 +1138,51 @@ def project(val, i):
     return project_term(val, C(i))
 
 
+def dict_lookup(d, k, default=None):
+    """value of a literal dictionary display at key k: the entry for a literal k, a chain of conditionals on `k == key` otherwise"""
+    if not all(isinstance(x, ast.Constant) for x in d.keys):
+        return None
+    if isinstance(k, ast.Constant):
+        for kk, vv in zip(d.keys, d.values):
+            if kk.value == k.value:
+                return vv
+        return default
+    out = default if default is not None else N("$missing")
+    for kk, vv in reversed(list(zip(d.keys, d.values))):
+        out = ast.IfExp(test=ast.Compare(left=k, ops=[ast.Eq()], comparators=[kk]), body=vv, orelse=out)
+    return out
+
+
+def rotation_of(t, X):
+    """k when t is the sequence X rotated by k positions, written X[k:] + X[:k] (list()/tuple() wrappers and [X[0]] for X[:1] accepted)"""
+    def conv(u):
+        while isinstance(u, ast.Call) and isinstance(u.func, ast.Name) and u.func.id in ("list", "tuple") and len(u.args) == 1 and not u.keywords:
+            u = u.args[0]
+        return u
+    t = conv(t)
+    if not (isinstance(t, ast.BinOp) and isinstance(t.op, ast.Add)):
+        return None
+    a, b = conv(t.left), conv(t.right)
+    xs = au.norm(X)
+    if not (isinstance(a, ast.Subscript) and au.norm(a.value) == xs and isinstance(a.slice, ast.Slice) and a.slice.upper is None and a.slice.step is None
+            and isinstance(au.const(a.slice.lower), int) and au.const(a.slice.lower) > 0):
+        return None
+    k = au.const(a.slice.lower)
+    if isinstance(b, ast.Subscript) and au.norm(b.value) == xs and isinstance(b.slice, ast.Slice) and b.slice.lower is None and b.slice.step is None \
+            and au.const(b.slice.upper) == k:
+        return k
+    if isinstance(b, (ast.List, ast.Tuple)) and len(b.elts) == k and all(isinstance(x_, ast.Subscript) and au.norm(x_.value) == xs and au.const(x_.slice) == i
+                                                                      for i, x_ in enumerate(b.elts)):
+        return k
+    return None
+
+
 def project_term(v, s):
     """v[s] with static simplification for literal displays"""
+    if isinstance(v, ast.Dict) and v.keys and not isinstance(s, ast.Slice):
+        r = dict_lookup(v, s)
+        if r is not None:
+            return r
     if isinstance(v, (ast.Tuple, ast.List)) and not any(isinstance(x, ast.Starred) for x in v.elts):
         i = au.const(s)
         if isinstance(i, int) and not isinstance(i, bool) and -len(v.elts) <= i < len(v.elts):
